@@ -85,6 +85,11 @@ def _guard_cases(tier):
             for sym in (0, 1):
                 for gsize in (1, 2, 3):
                     cases.append({'fn': fn, 'shape': shape, 'sym': sym, 'gsize': gsize})
+    # a malformed tensor offered to a bucket that already holds pending tensors and that it would overflow:
+    # it must be rejected before anything is communicated, and the pending tensors must survive
+    for shape in ([40, 3], [40], [3, 40], [12, 2, 2]):
+        for gsize in (2, 3):
+            cases.append({'fn': 'allreduce_bucketed', 'shape': shape, 'sym': 1, 'gsize': gsize, 'pending': 1})
     return cases
 
 
@@ -104,7 +109,12 @@ def _run_guard(case, seed):
         grp = torch.distributed.new_group(list(range(gsize)))
         if rank >= gsize:
             return ('nonmember',)
-        comm = TorchDistributedCommunicator(bucket_cap_mb=1.0)
+        comm = TorchDistributedCommunicator(bucket_cap_mb=0.001 if case.get('pending') else 1.0)
+        pend = None
+        if case.get('pending'):
+            p8 = torch.arange(64, dtype=torch.float32).reshape(8, 8) + 1000 * rank
+            p8 = torch.triu(p8) + torch.triu(p8, 1).t()
+            pend = comm.allreduce_bucketed(p8, group=grp, symmetric=True)
         t = (torch.arange(numel, dtype=torch.float32).reshape(shape) + 1000 * rank)
         if len(shape) == 2 and shape[0] == shape[1]:
             t = torch.triu(t) + torch.triu(t, 1).t()
@@ -117,6 +127,13 @@ def _run_guard(case, seed):
                 r = comm.allreduce_bucketed(t, group=grp, symmetric=sym)
                 comm.flush_allreduce_buckets()
         except NonSquareTensorError:
+            if pend is not None:
+                before = sum(1 for e in simdist._WORLD.log if e[0] == rank and e[1] != 'new_group')
+                comm.flush_allreduce_buckets()
+                got = pend.wait()
+                want = sum((torch.arange(64, dtype=torch.float32).reshape(8, 8) + 1000 * q) for q in range(gsize))
+                want = torch.triu(want) + torch.triu(want, 1).t()
+                return ('raise_nonsquare', before, bool(torch.equal(got, want)))
             return ('raise_nonsquare',)
         same = r is t
         if hasattr(r, 'wait'):
@@ -200,7 +217,12 @@ def run(tier, seed, rng):
             if mo == 'raise_nonsquare':
                 if res[0] != 'raise_nonsquare':
                     problems.append(f'rank {r}: expected NonSquareTensorError, got {res[0]}')
-                if log:
+                if case.get('pending'):
+                    if len(res) > 1 and res[1] != 0:
+                        problems.append(f'rank {r}: {res[1]} collective(s) issued before the malformed tensor was rejected (pending bucket flushed)')
+                    if len(res) > 2 and not res[2]:
+                        problems.append(f'rank {r}: the tensors pending in the bucket were lost or corrupted by the rejected request')
+                elif log:
                     problems.append(f'communication before rejection: {log[:2]}')
             elif mo == 'return_input':
                 if res[0] != 'value' or not res[1]:
@@ -220,7 +242,7 @@ def run(tier, seed, rng):
             # oracle: the property text itself (rejected before any communication)
             sq = len(case['shape']) == 2 and case['shape'][0] == case['shape'][1]
             orc_rej = (case['sym'] and not sq and case['gsize'] > 1 and
-                       (bool(log) or any(w.results.get(r, ('x',))[0] != 'raise_nonsquare' for r in members)))
+                       ((bool(log) and not case.get('pending')) or any(len(w.results.get(r, ('x',))) > 1 and w.results[r][1] != 0 for r in members) or any(w.results.get(r, ('x',))[0] != 'raise_nonsquare' for r in members)))
             failures.append(Failure(what='; '.join(problems)[:400], case=dict(case, kind='guard', seed=seed + k),
                                     model=mo, impl={str(r): w.results.get(r, ('?',))[:4] for r in members},
                                     oracle_rejects=bool(orc_rej), correspondence=CORRESPONDENCES[2],
